@@ -77,7 +77,7 @@ def build(variant):
         feat = variant.split("+", 1)[1] if "+" in variant else ""
         flags = CFG + (f" -Ctarget-feature=+{feat}" if feat else "")
         runenv["RUSTFLAGS"] = flags
-        runenv["MIRIFLAGS"] = "-Zmiri-disable-isolation -Zmiri-ignore-leaks"
+        runenv["MIRIFLAGS"] = "-Zmiri-disable-isolation -Zmiri-ignore-leaks -Zmiri-tree-borrows"
         tdir = str(HARNESS / ("target-miri" + ("-" + feat.replace(".", "") if feat else "")))
         cmd = None
         prefix = ["cargo", "+nightly", "miri", "run", "--offline", "-q", "-p", "vcheck", "--target-dir", tdir, "--"]
